@@ -109,12 +109,18 @@ func zzNewGenesisBanded(nholders, nvals int, gov *ctrlertypes.GovParams) *zzGene
 
 // start creates an application in a fresh directory and runs Info + InitChain.
 func (g *zzGenesis) start() *zzNode {
-	n := &zzNode{dir: zzverif.TempDir(), gov: g.gov, nvals: len(g.powers)}
-	n.app = zzOpenApp(n.dir)
-	info := n.app.Info(abcitypes.RequestInfo{})
+	dir := zzverif.TempDir()
+	app := zzOpenApp(dir)
+	info := app.Info(abcitypes.RequestInfo{})
 	if info.LastBlockHeight != 0 {
 		panic("fresh application reports a height")
 	}
+	return g.startOn(app, dir)
+}
+
+// startOn runs InitChain on an application that has already answered Info.
+func (g *zzGenesis) startOn(app *RigoApp, dir string) *zzNode {
+	n := &zzNode{dir: dir, gov: g.gov, nvals: len(g.powers), app: app}
 	var holders []*genesis.GenesisAssetHolder
 	for i, b := range g.balances {
 		holders = append(holders, &genesis.GenesisAssetHolder{Address: zzAddr(i), Balance: b.Clone()})
